@@ -43,6 +43,7 @@ def setup(rep, tier):
     rep.minimum('R05.6', 1)
     rep.minimum('R05.7', 2)
     rep.minimum('R05.8', 1)
+    rep.minimum('R05.9', 1)
 
 
 def local_key(f, name):
@@ -754,7 +755,82 @@ def r05_8(rep, prog):
     return n
 
 
+# ------------------------------------------------------------------ R05.9
+def r05_9(rep, prog):
+    """the multistream encoder turns its total bitrate into CBR bytes with the same rounding as the single-stream
+    encoder (round to nearest, not floor): both conversion expressions are taken from the source and evaluated for
+    every frame duration over two full periods of the divisor."""
+    if not prog.has_fn('opus_multistream_encode_native'):
+        return 0
+    n_ = prog.fn('opus_encode_native')
+    m_ = prog.fn('opus_multistream_encode_native')
+    rep.functions.update({n_.name, m_.name})
+    fr12 = decide.find_assign(n_, 'frame_rate12')
+    cbr = decide.find_assign(n_, 'cbr_bytes', lambda e: sx.int_val(e) is None)
+    if len(fr12) != 1 or len(cbr) != 1:
+        rep.unresolved('R05.9', 'single-stream cbr_bytes definition not found')
+        return 0
+    mm = T_minmax(cbr[0][1])
+    e_single = mm[1] if decide.mentions(mm[1], lambda x: sx.kind(x) == 'field' and x[3] == 'bitrate_bps') else mm[2]
+    # multistream: max_data_bytes = IMIN(max_data_bytes, E) under !vbr
+    pmax = m_.param_index('max_data_bytes')
+    exprs = []
+    for nn in m_.all_nodes():
+        if not (nn[0] == 'assign' and sx.key(sx.strip(nn[1])) == ('param', pmax)):
+            continue
+        r = nn[2]
+        mm2 = T_minmax(r)
+        if mm2 and mm2[0] == 'min':
+            e = mm2[2] if sx.key(mm2[1]) == ('param', pmax) else mm2[1]
+            mm3 = T_minmax(e)
+            if mm3 and mm3[0] == 'max':
+                e = mm3[2] if decide.mentions(mm3[2], lambda x: sx.kind(x) == 'bin' and x[1] == '/') else mm3[1]
+            if decide.mentions(e, lambda x: sx.kind(x) == 'bin' and x[1] == '/'):
+                exprs.append(e)
+    if not exprs:
+        rep.unresolved('R05.9', 'multistream CBR byte expressions not found')
+        return 0
+    kFs = ('field', ('param', 0), 'Fs')
+    kbr = ('field', ('param', 0), 'bitrate_bps')
+    pfn = n_.param_index('frame_size')
+    pfm = m_.param_index('frame_size') if m_.param_index('frame_size') is not None else None
+    n = 0
+    for e in exprs:
+        n += 1
+        # the rate operand of the multistream expression: a local (rate_sum) or st->bitrate_bps
+        rate_keys = {sx.key(x) for x in sx.walk(e) if (sx.kind(x) == 'local' and x[1] in ('rate_sum',)) or (sx.kind(x) == 'field' and x[3] == 'bitrate_bps')}
+        fs_keys = {sx.key(x) for x in sx.walk(e) if sx.kind(x) == 'local' and x[1] == 'frame_size'} | ({('param', pfm)} if pfm is not None else set())
+        Fs_keys = {sx.key(x) for x in sx.walk(e) if sx.kind(x) == 'local' and x[1] == 'Fs'}
+        bad = None
+        cases = 0
+        for Fs in (48000, 16000):
+            for d in (1, 2, 4, 8, 16, 24, 32, 40, 48):
+                fs_ = Fs * d // 400
+                f12 = decide.ev3(fr12[0][1], {kFs: Fs, ('param', pfn): fs_})
+                D = 2 * f12
+                for b in range(6000, 6000 + 2 * D + 1):
+                    cases += 1
+                    want = decide.ev3(e_single, {kFs: Fs, ('param', pfn): fs_, kbr: b, sx.key(fr12[0][0]): f12})
+                    val = {k: b for k in rate_keys}
+                    val.update({k: fs_ for k in fs_keys})
+                    val.update({k: Fs for k in Fs_keys})
+                    got = decide.ev3(e, val)
+                    if want is None or got is None:
+                        rep.unresolved('R05.9', 'cannot evaluate `%s` / `%s`' % (sx.show(e)[:60], sx.show(e_single)[:60]))
+                        return n
+                    if got != want and bad is None:
+                        bad = (Fs, fs_, b, got, want)
+        inst = '%s:multistream CBR bytes `%s` round like the single-stream encoder' % (prog.config, sx.show(e)[:50])
+        if bad:
+            rep.violated('R05.9', inst, m_.where(), 'Fs=%d frame_size=%d bitrate=%d: multistream %d bytes, single stream %d (`%s`): the CBR packet size is floor(), not round()' % (bad + (sx.show(e_single)[:50],)),
+                         key='ms-cbr-rounding:%s' % sx.show(e)[:30])
+        else:
+            rep.holds('R05.9', inst, m_.where(), '%d (rate, duration) cases' % cases, n=cases)
+    return n
+
+
 def check(rep, prog, tier):
+    r05_9(rep, prog)
     r05_8(rep, prog)
     r05_7(rep, prog)
     r05_5(rep, prog)
